@@ -89,7 +89,7 @@ func (s *sc) start(id string, n, k int, mbcv int) {
 // consensusNow: the actors whose key is a consensus member of the current view (read from the real store).
 func (s *sc) consensusNow() []actor {
 	var res []actor
-	for _, it := range s.f.w.snap().curPool() {
+	for _, it := range s.f.w.now().curPool() {
 		if it.Status == 1 {
 			b, err := hex.DecodeString(it.Pk)
 			if err != nil {
@@ -297,7 +297,7 @@ func (f *gov) genApprovals(s *sc) {
 		s.fullRound(mk)
 		s.do("dump")
 		if h%41 == 0 {
-			r.Sample(map[string]interface{}{"case": fmt.Sprintf("approvals-%s-N%d", kind, n), "ops": len(s.f.w.snap().text())})
+			r.Sample(map[string]interface{}{"case": fmt.Sprintf("approvals-%s-N%d", kind, n), "ops": len(s.f.w.now().text())})
 		}
 	}
 }
@@ -305,7 +305,7 @@ func (f *gov) genApprovals(s *sc) {
 // poolChange alters the consensus set between approvals: a candidate is approved / a member quits, then commitDpos.
 func (f *gov) poolChange(s *sc) {
 	cons := s.consensusNow()
-	snap := f.w.snap()
+	snap := f.w.now()
 	f.w.height++
 	s.do("height %d", f.w.height)
 	if s.r.Rng.Bool() && len(s.extra) > 1 {
@@ -439,7 +439,7 @@ func (f *gov) genPool(s *sc) {
 			return a.pk
 		}
 		ownerOf := func(pk string) string {
-			for _, it := range f.w.snap().curPool() {
+			for _, it := range f.w.now().curPool() {
 				if strings.EqualFold(it.Pk, pk) {
 					return ahex(it.Addr)
 				}
@@ -482,7 +482,7 @@ func (f *gov) genPool(s *sc) {
 				pk := spell(k)
 				if r.Rng.Chance(2, 3) {
 					// approve with the spelling of the pending request
-					for _, v := range f.w.snap().apply {
+					for _, v := range f.w.now().apply {
 						if strings.EqualFold(strings.SplitN(v, ":", 2)[0], k.pk) {
 							pk = strings.SplitN(v, ":", 2)[0]
 						}
@@ -496,7 +496,7 @@ func (f *gov) genPool(s *sc) {
 					r.Do(mk(sg, c))
 				}
 			case x < 52:
-				items := f.w.snap().curPool()
+				items := f.w.now().curPool()
 				if len(items) == 0 {
 					continue
 				}
@@ -511,7 +511,7 @@ func (f *gov) genPool(s *sc) {
 				}
 				s.do("quit %s %s %s", o, pk, o)
 			case x < 66:
-				items := f.w.snap().curPool()
+				items := f.w.now().curPool()
 				if len(items) == 0 {
 					continue
 				}
@@ -534,7 +534,7 @@ func (f *gov) genPool(s *sc) {
 				}
 			case x < 74:
 				k := spell(s.pick(all))
-				for _, v := range f.w.snap().black {
+				for _, v := range f.w.now().black {
 					if r.Rng.Bool() {
 						k = strings.SplitN(v, ":", 2)[0]
 					}
